@@ -361,6 +361,10 @@ fn body_decls(out: &mut Vec<Decl>) {
     push("struct S(u8, u8, u8);", vec![None], &[0]);
     push("enum E { A(u8, u8), B }", vec![None], &[0]);
     push("enum E { A, B(u8, u8), C(u8, u8) }", vec![None, None], &[0]);
+    // a skipped variant is never parsed: its shape does not matter
+    push("enum E { A, #[darling(skip)] B(u8, u8), #[darling(skip)] C() }", vec![], &[0]);
+    push("enum E { A, #[darling(skip = false)] B(u8, u8) }", vec![None], &[0]);
+    push("enum E { #[darling(skip)] A(u8, u8), B(u8, u8) }", vec![None], &[0]);
     push("struct S(u8);", vec![], &[0]);
     push("struct S;", vec![], &[0]);
     push("enum E { A, B(u8), C { x: u8 } }", vec![], &[0]);
